@@ -149,37 +149,55 @@ def corrupt_for_selftest(lines, dirty_lines=()):
 
 
 def judge_in_chunks(lines, cd, tag, n_chunks):
-    """Sessions are independent (the monitor resets at every session event), so a long trace is cut at session
-    boundaries and the pieces are judged by parallel TLC processes; line numbers are mapped back."""
+    """Sessions are independent (the monitor resets at every session event), so a long trace is split into pieces made of
+    whole sessions and the pieces are judged by parallel TLC processes; line numbers are mapped back.  Sessions are dealt
+    out by estimated cost (update and transaction cases are the expensive ones for the reference) so that the pieces
+    finish at about the same time."""
     starts = [i for i, l in enumerate(lines) if '"ev":"session"' in l and json.loads(l).get("ev") == "session"]
     if n_chunks <= 1 or len(starts) < 2:
         p = os.path.join(cd, "chunk-0.ndjson")
         open(p, "w").write("\n".join(lines) + "\n")
         return vlib.tlc_trace("CypherTrace", p, tag, timeout=10800)
-    per = max(1, len(lines) // n_chunks)
-    cuts, last = [0], 0
-    for st in starts:
-        if st - last >= per:
-            cuts.append(st)
-            last = st
-    cuts.append(len(lines))
-    pieces = [(cuts[i], cuts[i + 1]) for i in range(len(cuts) - 1) if cuts[i] < cuts[i + 1]]
+    bounds = starts + [len(lines)]
+    head = list(range(0, starts[0]))            # anything before the first session travels with the first piece
+    sessions = []
+    for k in range(len(starts)):
+        a, b = bounds[k], bounds[k + 1]
+        w = 0
+        for l in lines[a:b]:
+            w += 6 if ('"kind":"upd"' in l or '"kind":"txn"' in l) else 3 if ('"kind":"read"' in l or '"kind":"bread"' in l or '"kind":"idx"' in l) else 1
+        sessions.append((w, a, b))
+    n_chunks = max(1, min(n_chunks, len(sessions)))
+    load = [0] * n_chunks
+    members = [[] for _ in range(n_chunks)]
+    for w, a, b in sorted(sessions, key=lambda t: -t[0]):
+        k = load.index(min(load))
+        load[k] += w
+        members[k].append((a, b))
+    pieces = []
+    for k in range(n_chunks):
+        idx = (head if k == 0 else [])
+        for a, b in sorted(members[k]):
+            idx = idx + list(range(a, b))
+        if idx:
+            pieces.append(idx)
     from concurrent.futures import ThreadPoolExecutor
 
     def run(k):
-        a, b = pieces[k]
+        idx = pieces[k]
         p = os.path.join(cd, "chunk-%d.ndjson" % k)
-        open(p, "w").write("\n".join(lines[a:b]) + "\n")
+        open(p, "w").write("\n".join(lines[i] for i in idx) + "\n")
         f, info = vlib.tlc_trace("CypherTrace", p, "%s-c%d" % (tag, k), timeout=10800)
         for x in f:
-            x["at"] += a
+            x["at"] = idx[x["at"] - 1] + 1          # back to the line number in the whole trace
         return f, info
     findings, total = [], {"distinct": 0, "states_generated": 0, "chunks": len(pieces)}
-    with ThreadPoolExecutor(max_workers=6) as ex:
+    with ThreadPoolExecutor(max_workers=min(14, len(pieces))) as ex:
         for f, info in ex.map(run, range(len(pieces))):
             findings += f
             total["distinct"] += info.get("distinct", 0)
             total["states_generated"] += info.get("states_generated", 0)
+    findings.sort(key=lambda x: x.get("at", 0))
     return findings, total
 
 
@@ -201,7 +219,7 @@ def cypher_family(tier, seed, sessions=None, tag="main"):
     stats = vlib.nvx(["cypher", "--in", sp, "--out", tp, "--scratch", os.path.join(cd, "scratch")])
     shutil.rmtree(os.path.join(cd, "scratch"), ignore_errors=True)
     lines = open(tp).read().splitlines()
-    findings, info = judge_in_chunks(lines, cd, "cytrace-" + tag + "-" + tier, 1 if len(lines) < 4000 else 10)
+    findings, info = judge_in_chunks(lines, cd, "cytrace-" + tag + "-" + tier, 1 if len(lines) < 4000 else 14)
     census, errs, nrows, nonempty = {}, {}, {}, {}
     for line in lines:
         e = json.loads(line)
